@@ -248,6 +248,14 @@ fn get_match_statically_known(
 
     let query_variable = |query: &expr::StaticallyKnownVariableQuery|
     {
+        // The current address is never statically known,
+        // even if a symbol happens to share its name
+        if query.hierarchy_level == 0 &&
+            matches!(query.hierarchy[0].as_ref(), "$" | "pc")
+        {
+            return false;
+        }
+
         match decls.symbols.try_get_by_name(
             symbol_ctx,
             query.hierarchy_level,
